@@ -48,6 +48,18 @@ check("C10", "model_checking",
       "TLA+ rewrite system enumerated by TLC, spec->impl replay on the real parser with tree comparison",
       "DESIGN.md section 6 C10")
 
+check("C22", "model_checking",
+      "Effects.tla builds every nesting path of block-opening constructs (function/procedure definitions, variable blocks, do-blocks, function/procedure lambdas) of depth <= 3 (quick) / 4 (thorough), places one of three effect kinds directly or inside a record field, and states when the effect is allowed (nearest enclosing subroutine is a procedure or none); a layer-B transcription of the checker's look-back is compared with it by TLC. All 1554 (quick) / 9330 (thorough) paths are rendered as programs and checked by the real compiler in-process: a HasEffect diagnostic must be present exactly when the specification forbids the effect.",
+      "Trusted: TLC; the renderer in py/verif/props/c22.py; programs with diagnostics other than HasEffect are excluded (none at present).",
+      "TLA+ state machine over block-kind stacks enumerated by TLC, spec->impl replay through the in-process checker",
+      "DESIGN.md section 6 C22")
+
+check("C23", "model_checking",
+      "Ownership.tla enumerates every statement sequence of length <= 4 (quick) / 5 (thorough) over mutable variables (definition, rebinding, container construction, passing for mutable/reference/immutable parameters, operand use, bare access) in module, function and procedure scope, plus simulated sequences of length 10, and says whether a statement mentions a variable moved earlier. Each sequence is rendered as a program and checked in-process: MoveError present exactly when the specification says so; probes cover moving a lambda parameter.",
+      "Trusted: TLC; the renderer in py/verif/props/c23.py; generic parameters are not judged.",
+      "TLA+ state machine over alive/moved sets enumerated by TLC, spec->impl replay through the in-process checker",
+      "DESIGN.md section 6 C23")
+
 NOT_APPLICABLE = {
     "C16": "static comparison of opcode/magic tables with external ground truth: no state or behaviour for a TLA+ specification to constrain (DESIGN.md section 7)",
     "C27": "data audit of ~150 declaration files against installed interpreters/typeshed: no behaviour to model in TLA+ (DESIGN.md section 7)",
